@@ -168,15 +168,20 @@ Proof.
       destruct (hdparse (kr_xpub kr)) as [[xp n']|]; [|discriminate]. cbn [bind] in *.
       apply Ok_inj in Hr. injection Hr as E1 E2. subst n'. rewrite Z.eqb_refl. cbn [negb].
       rewrite IH1. reflexivity.
-    + intros rs nf H. unfold normed, rec_ok, norm1.
-      destruct (negb (path_ok (kr_path kr))); [discriminate|].
-      destruct (negb (xfp_ok (kr_xfp kr))); [discriminate|].
-      destruct (hdparse (kr_xpub kr)) as [[xp n']|]; [|discriminate]. cbn [bind] in *.
+    + intros rs nf H.
+      destruct (negb (path_ok (kr_path kr))) eqn:E1; [discriminate|].
+      destruct (negb (xfp_ok (kr_xfp kr))) eqn:E2; [discriminate|].
+      destruct (hdparse (kr_xpub kr)) as [[xp n']|] eqn:E3; [|discriminate]. cbn [bind] in *.
       destruct (Z.eqb_spec n n') as [EQ|N]; [|discriminate]. subst n'. cbn [negb] in H.
       destruct (check_recs path_ok hdparse (Some n) l) as [[rs' nf']|] eqn:E; [|discriminate].
       cbn [bind] in H. apply Ok_inj in H. injection H as <- <-.
       destruct (IH2 rs' nf' eq_refl) as [F [-> ->]].
-      split; [constructor; [eexists; reflexivity|exact F]|]. auto.
+      assert (N1 : norm1 kr = Ok ({| kr_xfp := kr_xfp kr; kr_path := kr_path kr; kr_xpub := xp;
+                                     kr_idx := kr_idx kr |}, n)).
+      { unfold norm1. rewrite E1, E2, E3. reflexivity. }
+      assert (NK : normed kr = {| kr_xfp := kr_xfp kr; kr_path := kr_path kr; kr_xpub := xp;
+                                  kr_idx := kr_idx kr |}) by (unfold normed; rewrite N1; reflexivity).
+      split; [constructor; [eexists; exact N1|exact F]|]. rewrite NK. auto.
 Qed.
 
 Lemma check_recs_none l rs nf :
@@ -185,17 +190,19 @@ Lemma check_recs_none l rs nf :
    exists n, Forall (rec_ok n) l /\ rs = map normed l /\ nf = Some n).
 Proof.
   destruct l as [|kr l]; [congruence|]. intros _. cbn [check_recs]. split.
-  - intros H. unfold normed at 1, rec_ok, norm1.
-    destruct (negb (path_ok (kr_path kr))); [discriminate|].
-    destruct (negb (xfp_ok (kr_xfp kr))); [discriminate|].
-    destruct (hdparse (kr_xpub kr)) as [[xp n]|]; [|discriminate]. cbn [bind negb] in *.
+  - intros H.
+    destruct (negb (path_ok (kr_path kr))) eqn:E1; [discriminate|].
+    destruct (negb (xfp_ok (kr_xfp kr))) eqn:E2; [discriminate|].
+    destruct (hdparse (kr_xpub kr)) as [[xp n]|] eqn:E3; [|discriminate]. cbn [bind negb] in *.
     destruct (check_recs path_ok hdparse (Some n) l) as [[rs' nf']|] eqn:E; [|discriminate].
     cbn [bind] in H. apply Ok_inj in H. injection H as <- <-.
     destruct (proj2 (check_recs_some n l) rs' nf' E) as [F [-> ->]].
-    exists n. split; [constructor; [eexists; reflexivity|exact F]|]. cbn [map]. unfold normed at 2, norm1.
-    destruct (negb (path_ok (kr_path kr))) eqn:E1.
-    + auto.
-    + auto.
+    assert (N1 : norm1 kr = Ok ({| kr_xfp := kr_xfp kr; kr_path := kr_path kr; kr_xpub := xp;
+                                   kr_idx := kr_idx kr |}, n)).
+    { unfold norm1. rewrite E1, E2, E3. reflexivity. }
+    assert (NK : normed kr = {| kr_xfp := kr_xfp kr; kr_path := kr_path kr; kr_xpub := xp;
+                                kr_idx := kr_idx kr |}) by (unfold normed; rewrite N1; reflexivity).
+    exists n. split; [constructor; [eexists; exact N1|exact F]|]. cbn [map]. rewrite NK. auto.
   - intros [n [HF [-> ->]]]. inversion HF as [|? ? [r Hr] HF']; subst.
     cbn [map]. unfold normed at 1. unfold norm1 in *.
     destruct (negb (path_ok (kr_path kr))); [discriminate|].
@@ -247,7 +254,7 @@ Lemma construct_ok m recs cs srt d :
     d_m d = m /\ d_net d = n /\ d_text d = render_text m (d_recs d) /\
     desc_checksum (d_text d) = Ok (d_checksum d) /\ (cs = [] \/ cs = d_checksum d).
 Proof.
-  unfold construct. destruct (Z.ltb_spec m 1); [discriminate|].
+  unfold construct. destruct (Z.ltb_spec m 1) as [M0|M0]; [discriminate|].
   destruct recs as [|r0 recs0]; [discriminate|]. set (l := r0 :: recs0) in *.
   assert (NE : l <> []) by discriminate.
   destruct (check_recs path_ok hdparse None l) as [[rs nf]|] eqn:E; [|discriminate].
@@ -271,7 +278,9 @@ Proof.
   destruct (construct path_ok hdparse m recs cs srt) as [d'|] eqn:E; [|reflexivity]. exfalso.
   destruct (construct_ok _ _ _ _ _ H) as [_ [_ [n [_ [R [M [_ [T [C _]]]]]]]]].
   destruct (construct_ok _ _ _ _ _ E) as [_ [_ [n' [_ [R' [M' [_ [T' [C' [X|X]]]]]]]]]]; [contradiction|].
-  apply Hcs. rewrite X. rewrite <- R in R'. rewrite T', R', M', <- M, <- T in C'. congruence.
+  apply Hcs. rewrite X.
+  assert (TT : d_text d' = d_text d) by (rewrite T, T', R, R'; reflexivity).
+  rewrite TT in C'. congruence.
 Qed.
 
 (* ------------------------------------------------------------------ (3) round trip over the regex fields *)
@@ -356,7 +365,7 @@ Proof.
     destruct (Z.ltb_spec m 1); [lia|].
     destruct (d_recs d) as [|k0 ks] eqn:ED.
     { exfalso. rewrite <- LEN in Hm. cbn in Hm. lia. }
-    rewrite <- ED in *. rewrite CK. cbn [bind]. rewrite <- M, <- T, C. cbn [bind].
+    rewrite <- ED in *. rewrite CK. cbn [bind]. rewrite <- T, C. cbn [bind].
     destruct Hcs as [->| ->].
     - destruct d; cbn in *. subst. reflexivity.
     - destruct (d_checksum d) eqn:EC.
@@ -451,10 +460,73 @@ Proof.
   change (Z.of_nat 33 <=? 75) with true in H, H'. cbn [bind] in H, H'.
   destruct (ser_cmds (map Push ks ++ t)) as [b|] eqn:E; [|discriminate].
   destruct (ser_cmds (map Push ks' ++ t')) as [b'|] eqn:E'; [|discriminate].
-  cbn [bind] in H, H'. apply Ok_inj in H. apply Ok_inj in H'. subst a a'.
-  cbn [app] in H'. injection H' as _ H'.
+  cbn [bind] in H, H'. apply Ok_inj in H. apply Ok_inj in H'.
+  assert (HA : (Z.of_nat 33 :: k) ++ b = (Z.of_nat 33 :: k') ++ b') by congruence.
+  cbn [app] in HA. injection HA as HA.
   assert (S : k = k' /\ b = b').
-  { apply app_eq_len; [congruence|exact H']. }
+  { apply app_eq_len; [congruence|exact HA]. }
   destruct S as [-> ->]. f_equal. apply (IH ks' t t' b' b'); auto.
+Qed.
+
+Lemma forall2_length {A B} (R : A -> B -> Prop) l l' : Forall2 R l l' -> length l = length l'.
+Proof. induction 1; cbn; congruence. Qed.
+
+(* shape of the script: OP_m, one 33-byte push per key record (its child key, sorted), OP_n,
+   OP_CHECKMULTISIG *)
+Theorem witness_script_shape d off chg ws :
+  witness_script derive d off chg true = Ok ws ->
+  exists ks om on,
+    Forall2 (fun kr k => derive (kr_xpub kr) (account chg kr) off = Ok k) (d_recs d) ks /\
+    length ks = length (d_recs d) /\
+    number_to_op_code (d_m d) = Ok om /\ number_to_op_code (zlen (d_recs d)) = Ok on /\
+    0 <= off /\
+    ser_cmds (Op om :: map Push (sort_by (fun k => k) ks) ++ [Op on; Op 174]) = Ok ws.
+Proof.
+  unfold witness_script. destruct (Z.ltb_spec off 0) as [O|O]; [discriminate|].
+  destruct (child_keys derive (d_recs d) chg off) as [ks|] eqn:E; [|discriminate]. cbn [bind].
+  unfold multisig_cmds.
+  destruct (number_to_op_code (d_m d)) as [om|]; [|discriminate]. cbn [bind].
+  destruct (number_to_op_code (zlen (d_recs d))) as [on|]; [|discriminate]. cbn [bind].
+  intros H. exists ks, om, on. apply child_keys_spec in E.
+  repeat split; auto. symmetry. exact (forall2_length _ _ _ E).
+Qed.
+
+(* (5) equal receive and change addresses at the same offset force a SHA-256 collision
+   (exhibited) or equal sorted child-key lists of the two branches *)
+Theorem branches_distinct d off a :
+  (forall h h' n, p2wsh_address h n = p2wsh_address h' n -> h = h') ->
+  (forall x acc i k, derive x acc i = Ok k -> length k = 33%nat) ->
+  get_address derive sha256 p2wsh_address d off false true = Ok a ->
+  get_address derive sha256 p2wsh_address d off true true = Ok a ->
+  (exists s s', s <> s' /\ sha256 s = sha256 s') \/
+  (exists kr kc,
+     child_keys derive (d_recs d) false off = Ok kr /\
+     child_keys derive (d_recs d) true off = Ok kc /\
+     sort_by (fun k => k) kr = sort_by (fun k => k) kc).
+Proof.
+  intros HA HL. unfold get_address.
+  destruct (witness_script derive d off false true) as [ws|] eqn:W; [|discriminate].
+  destruct (witness_script derive d off true true) as [ws'|] eqn:W'; [|discriminate].
+  cbn [bind]. intros H H'. apply Ok_inj in H. apply Ok_inj in H'.
+  assert (HH : sha256 ws = sha256 ws') by (apply (HA _ _ (d_net d)); congruence).
+  destruct (list_eq_dec Z.eq_dec ws ws') as [EQ|NE]; [|left; exists ws, ws'; auto].
+  right. subst ws'.
+  destruct (witness_script_shape _ _ _ _ W) as [kr [om [on [F [L [M [N [_ S]]]]]]]].
+  destruct (witness_script_shape _ _ _ _ W') as [kc [om' [on' [F' [L' [M' [N' [_ S']]]]]]]].
+  exists kr, kc. split; [now apply child_keys_spec|]. split; [now apply child_keys_spec|].
+  assert (om' = om) by congruence. assert (on' = on) by congruence. subst om' on'.
+  cbn [ser_cmds] in S, S'. destruct (ser_cmd (Op om)) as [h|]; [|discriminate]. cbn [bind] in S, S'.
+  destruct (ser_cmds (map Push (sort_by (fun k => k) kr) ++ [Op on; Op 174])) as [b|] eqn:B; [|discriminate].
+  destruct (ser_cmds (map Push (sort_by (fun k => k) kc) ++ [Op on; Op 174])) as [b'|] eqn:B'; [|discriminate].
+  cbn [bind] in S, S'. apply Ok_inj in S. apply Ok_inj in S'.
+  assert (BB : b = b') by (apply (app_inv_head h); congruence).
+  assert (K33 : forall chg ks, Forall2 (fun kr k => derive (kr_xpub kr) (account chg kr) off = Ok k) (d_recs d) ks ->
+            Forall (fun k => length k = 33%nat) (sort_by (fun k => k) ks)).
+  { intros chg ks FF. apply (Permutation_Forall (sort_perm (fun k => k) ks)).
+    clear -FF HL. induction FF as [|x k l ks Hk _ IH]; constructor; [exact (HL _ _ _ _ Hk)|exact IH]. }
+  apply (ser_pushes_inj _ _ [Op on; Op 174] [Op on; Op 174] b b'); auto.
+  - exact (K33 false kr F).
+  - exact (K33 true kc F').
+  - rewrite !sort_by_length. congruence.
 Qed.
 End DescP.
